@@ -129,6 +129,9 @@ func TestVerifC05Sched(t *testing.T) {
 			if s.faults > 0 {
 				r.Count("cases_with_fault", 1)
 			}
+			if s.cancels > 0 {
+				r.Count("cases_with_ctx_cancel", 1)
+			}
 			r.Count("update_offsets_delivered", int64(len(s.hub.events)))
 			// count out-of-order deliveries actually explored
 			lastDelivered := map[string]int64{}
